@@ -29,6 +29,21 @@ def revealSetsList (T : List Digest) (cur : List Digest) : List Env → List Dig
 end
 
 mutual
+/-- `reveal_sets`, second output: the digests strictly above some target (`interior`) -/
+def interiorSets (T : List Digest) (cur : List Digest) : Env → List Digest
+  | .node s as d =>
+    (if memD T d then cur else []) ++ interiorSets T (d :: cur) s ++ interiorSetsList T (d :: cur) as
+  | .wrapped e d =>
+    (if memD T d then cur else []) ++ interiorSets T (d :: cur) e
+  | .assertion p o d =>
+    (if memD T d then cur else []) ++ interiorSets T (d :: cur) p ++ interiorSets T (d :: cur) o
+  | e => if memD T e.digest then cur else []
+def interiorSetsList (T : List Digest) (cur : List Digest) : List Env → List Digest
+  | [] => []
+  | a :: as => interiorSets T cur a ++ interiorSetsList T cur as
+end
+
+mutual
 /-- `remove_all_found`: the targets still missing after visiting the element -/
 def removeAllFound (T : List Digest) : Env → List Digest
   | .node s as d =>
@@ -55,10 +70,13 @@ variable (h : Hash) (A : Aead) (Z : Deflate)
 /-- `proof_contains_set` -/
 def proofContainsSet (e : Env) (T : List Digest) : Res (Option Env) :=
   let reveal := revealSets T [] e
+  let interior := interiorSets T [] e
   if !(T.all (memD reveal)) then .ok none else
+  -- a target that contains another target stays revealed
+  let elidable := T.filter (fun d => !memD interior d)
   match elideSet h A Z (memD reveal) true .elide e with
   | .ok e1 =>
-    match elideSet h A Z (memD T) false .elide e1 with
+    match elideSet h A Z (memD elidable) false .elide e1 with
     | .ok e2 => .ok (some e2)
     | .err x => .err x
     | .panic x => .panic x
